@@ -393,6 +393,18 @@ example : untouched demoLayout 3 ∧ untouched demoLayout 6 ∧ ¬ untouched dem
   · intro h
     have := h (2, demoLayout.refs[1]!.2) (by decide +kernel)
     simp [demoLayout, DataType.size] at this
+-- the specification itself on concrete bytes: bits 2..4 of a5 := 5 gives b5, every other bit kept;
+-- Signed32 -2 is ff ff ff fe; bit 15 of -32768 is set, bit 14 is not
+example : prmSpec [0xa5] 0 (.bitArea 2 4) 5 = [0xb5] ∧ prmActual [0xa5] 0 (.bitArea 2 4) 5 = [0x14] ∧
+    prmSpec [1, 2, 3, 4, 5] 1 .s32 (-2) = [1, 0xff, 0xff, 0xff, 0xfe] ∧
+    intBit (-32768) 15 = true ∧ intBit (-32768) 14 = false ∧ bitOf 0xb5 4 = true := by decide +kernel
+-- `bitarea_deviates_iff` / `oracle_sound_call`: both verdicts occur
+example : judgeCall demoLayout demoBuilder.prm (.set "area" 0) (.ok [0xff, 0xfe, 0, 0xff, 0xff, 0xff, 0, 0xff, 0xff, 0xff, 0xff]) = .pass ∧
+    judgeCall demoLayout [0xff, 0xfe, 0x81, 0xff, 0xff, 0xff, 0, 0xff, 0xff, 0xff, 0xff] (.set "area" 0)
+      (.ok [0xff, 0xfe, 0, 0xff, 0xff, 0xff, 0, 0xff, 0xff, 0xff, 0xff]) = .k2 ∧
+    judgeCall demoLayout [0xff, 0xfe, 0x81, 0xff, 0xff, 0xff, 0, 0xff, 0xff, 0xff, 0xff] (.set "area" 0)
+      (.ok [0xff, 0xfe, 0x81, 0xff, 0xff, 0xff, 0, 0xff, 0xff, 0xff, 0xff]) = .fail "block differs from prmSpec" ∧
+    judgeNew demoLayout (.ok demoBuilder.prm) = .k2 := by decide +kernel
 -- `run_exact`: a layout without BitArea
 example : wellFormed { demoLayout with refs := demoLayout.refs.take 2 } = true ∧
     Layout.hasBitArea { demoLayout with refs := demoLayout.refs.take 2 } = false := by decide +kernel
